@@ -2,10 +2,11 @@
   C06 — integer arithmetic is exact over 64 bits or reports an error.
 
   Property theorems about the model's primitives (`applyBinOp`/`arith`, `lexInt`, `parseAtom`, `intRange`,
-  `bindNextName`, `opAssignValue`) and, for op-assignment with a literal right-hand side, through the
-  fuel-indexed evaluator.
+  `bindNextName`, `opAssignValue`) and, for op-assignment, through the fuel-indexed evaluator (using fuel
+  monotonicity G1 from `Lemmas/EvalMono.lean`).
 -/
 import SeedProofs.Lemmas.C06Int
+import SeedProofs.Lemmas.C06Fuel
 import SeedModel.Run
 namespace Seed.C06
 open Seed
@@ -35,6 +36,8 @@ instance (op : BinaryOp) (a b : Int) : Decidable (Defined op a b) := by unfold D
 theorem applyBinOp_int {op : BinaryOp} (hop : IsArith op) (fuel : Nat) (σ : State) (loc : Loc) (a b : Int) :
     applyBinOp fuel σ op loc (.int a) (.int b) = arith op loc a b σ := by
   rcases hop with rfl | rfl | rfl | rfl | rfl <;> rfl
+
+example : IsArith .Mul ∧ ¬ IsArith .Lt := by decide
 
 /-! ## exact or error -/
 
@@ -441,16 +444,40 @@ theorem opassign_var (fuel : Nat) (σ : State) (sc : List Addr) (names : List (L
 example : c!"x" ≠ c!"_" ∧ c!"x" ∉ ([] : List (List Char)) ∧
     scopeGet ⟨#[.scope [(c!"x", SVal.plain (.int 7), (1, 1))]], []⟩ [0] c!"x" = some (SVal.plain (.int 7)) := by decide
 
-/-
-  Full statement (DESIGN.md §6 C06):
-      opassign_eq_assign : rhs does not write x →
-        evalStmt (OpAssign (Var x) op rhs) ≈ evalStmt (Assign (Var x) (BinaryOp op (Var x) rhs))   (up to fuel)
-  Proved below for a right-hand side that is an integer literal and an arithmetic operator (`_partial`): both
-  statements, run from the same state with enough fuel, give the same result and the same state.  Missing for the
-  full statement: an arbitrary pure `rhs`, which needs fuel monotonicity of the whole evaluator (G1) to align the
-  two different recursion depths at which `rhs` is evaluated.
--/
-theorem opassign_eq_assign_partial (n : Nat) (σ : State) (sc : List Addr) (x : List Char) (loc rloc bloc : Loc)
+/-- **C06, op-assignment.**  `x op= rhs` equals `x = x op rhs` for every right-hand side whose evaluation terminates
+    with a value and leaves `x` as it was (hypothesis `hpure`; a right-hand side that assigns `x` is the documented
+    exception shown at the end of this file): with enough fuel both statements give the same result and state.
+    `m` is fuel enough for `rhs`, `k` fuel enough for the operator (which needs fuel only for `==` on containers). -/
+theorem opassign_eq_assign (n m k : Nat) (σ σ1 : State) (sc : List Addr) (x : List Char) (loc bloc : Loc)
+    (op : BinaryOp) (oloc : Loc) (rhs : Expr) (cur v : SVal) (r : Res Val)
+    (hx : x ≠ c!"_") (hget : scopeGet σ sc x = some cur)
+    (hrhs : evalExpr m σ sc rhs = .ok v σ1) (hpure : scopeGet σ1 sc x = some cur)
+    (hop : applyBinOp k σ1 op oloc cur.v v.v = r) (hr : r ≠ .timeout) (hm : m ≤ n + 2) (hk : k ≤ n + 2) :
+    evalStmt (n + 4) σ sc (.OpAssign (.mk (.Var x) loc) op oloc rhs) =
+    evalStmt (n + 4) σ sc (.Assign (.mk (.Var x) loc) (.mk (.BinaryOp op oloc (.mk (.Var x) bloc) rhs) bloc)) := by
+  have e3 : evalExpr (n + 3) σ sc rhs = .ok v σ1 := evalExpr_stable (by omega) hrhs (by simp)
+  have e2 : evalExpr (n + 2) σ sc rhs = .ok v σ1 := evalExpr_stable hm hrhs (by simp)
+  have o2 : applyBinOp (n + 2) σ1 op oloc cur.v v.v = r := applyBinOp_stable hk hop hr
+  simp only [evalStmt, evalExpr, e3, e2, hget, Res.bind, bindNext, bindNextName, hx, if_false, List.contains_nil,
+    Bool.false_eq_true, hpure, o2]
+  cases r with
+  | ok w σ2 => rfl
+  | err e σ2 => rfl
+  | crash w σ2 => rfl
+  | timeout => exact absurd rfl hr
+
+/-- the hypotheses are met by `x := 7; x *= x + 1` (the right-hand side reads `x` and leaves it alone) -/
+example : ∃ (σ σ1 : State) (sc : List Addr) (rhs : Expr) (cur v : SVal) (r : Res Val),
+    c!"x" ≠ c!"_" ∧ scopeGet σ sc c!"x" = some cur ∧ evalExpr 3 σ sc rhs = .ok v σ1 ∧ scopeGet σ1 sc c!"x" = some cur ∧
+    applyBinOp 0 σ1 .Mul (2, 3) cur.v v.v = r ∧ r ≠ .timeout :=
+  ⟨⟨#[.scope [(c!"x", SVal.plain (.int 7), (1, 1))]], []⟩, ⟨#[.scope [(c!"x", SVal.plain (.int 7), (1, 1))]], []⟩, [0],
+   .mk (.BinaryOp .Sum (2, 8) (.mk (.Var c!"x") (2, 6)) (.mk (.Int 1) (2, 10))) (2, 6),
+   SVal.plain (.int 7), SVal.plain (.int 8), .ok (.int 56) ⟨#[.scope [(c!"x", SVal.plain (.int 7), (1, 1))]], []⟩,
+   by decide, by decide, by simp [evalExpr, scopeGet, State.getScope, scopeLookup, applyBinOp, arith, inI64, i64Min, i64MaxI, Res.bind, SVal.plain],
+   by decide, by rfl, by simp⟩
+
+/-- the special case of an integer literal on the right, with explicit fuel on both sides -/
+theorem opassign_eq_assign_literal (n : Nat) (σ : State) (sc : List Addr) (x : List Char) (loc rloc bloc : Loc)
     (op : BinaryOp) (oloc : Loc) (i k : Int) (cur : SVal) (hop : IsArith op) (hx : x ≠ c!"_")
     (hget : scopeGet σ sc x = some cur) (hv : cur.v = .int i) :
     evalStmt (n + 3) σ sc (.OpAssign (.mk (.Var x) loc) op oloc (.mk (.Int k) rloc)) =
